@@ -3,6 +3,7 @@
 From Coq Require Import List NArith Bool String.
 Import ListNotations.
 From JR Require Import Conn Conn_Proofs.
+From JRGen Require Extracted.
 Open Scope N_scope.
 
 (* ids of distinct calls are distinct: a second call under an id in use is not a behaviour of the model
@@ -54,6 +55,30 @@ Theorem c02_not_dropped : forall es s,
      entry_is s id (attempts c) = true \/ exec_looked s id (attempts c) = true.
 Proof. intros es s H. exact (proj1 (no_orphan_reachable es s H)). Qed.
 
+(* the single-request transports (HTTP: one connection per call; custom) and the generated function itself: whatever a
+   peer or an intermediary answers, a response — result or error alike — is handed to a call only if it carries that
+   call's id. `accept` is the test the three sites make; ids are compared after normalisation. *)
+Section SingleRequest.
+  Variable id : Type.
+  Variable id_eqb : id -> id -> bool.
+  Hypothesis id_eqb_eq : forall a b, id_eqb a b = true <-> a = b.
+  Definition accept (notify : bool) (req_id resp_id : option id) : bool :=
+    notify || match req_id, resp_id with
+              | Some a, Some b => id_eqb a b
+              | None, None => true
+              | _, _ => false end.
+  Theorem c02_single_request_own_response : forall req_id resp_id,
+    accept false req_id resp_id = true -> resp_id = req_id.
+  Proof.
+    intros [a|] [b|] H; simpl in H; try discriminate; [|reflexivity]. apply id_eqb_eq in H. congruence.
+  Qed.
+End SingleRequest.
+
+Theorem c02_source_facts :
+  Extracted.response_id_checks =
+    ["NewCustomClient: resp.ID != cr.req.ID"; "httpClient: resp.ID != cr.req.ID"; "handleRpcCall: !fn.notify && resp.ID != req.ID"]%string.
+Proof. reflexivity. Qed.
+
 Print Assumptions c02_fresh_ids.
 Print Assumptions c02_deliver_needs_lookup.
 Print Assumptions c02_lookup_by_id.
@@ -62,3 +87,5 @@ Print Assumptions c02_unknown_response_ignored.
 Print Assumptions c02_returns_once.
 Print Assumptions c02_one_receive_per_attempt.
 Print Assumptions c02_not_dropped.
+Print Assumptions c02_single_request_own_response.
+Print Assumptions c02_source_facts.
